@@ -202,7 +202,9 @@ def step(m, f, pc, reg, mem):
                 s += chr_text(b & 127)
                 i += 1
                 if i > MAX_STR:
-                    raise AssertionError("reference: print-string bound exceeded (harness must assume it)")
+                    from symx.core import PathCut
+
+                    raise PathCut("print-string longer than %d characters" % MAX_STR)
             e.out = s
         elif code == 10:
             e.exit_code = 0
